@@ -202,3 +202,36 @@ func VH_C01_step(kind, maxN, maxK, maxV, wide int) {
 	vhCheckIndex(f, ref)
 	verif.Cover("end")
 }
+
+// VH_C11_applied: what the state machine tells the applied-index listener.
+// On a follower table (a leader index is recorded) the follower API waits
+// for *leader* revisions, so every value reported must be a leader index the
+// table has really reached: <= the persisted leader index at that moment.
+func VH_C11_applied(m int) {
+	db := vhOpenDB()
+	ref := vhArbitraryStateSys(db, 0, 1, -1, true) // local and leader index arbitrary and unrelated
+	var reported []uint64
+	f := vhFSM(db, func(x uint64) { reported = append(reported, x) })
+	var log []sm.Entry
+	idx := ref.index
+	for i := 0; i < m; i++ {
+		idx += vhIndex(false)
+		cmd := &regattapb.Command{Table: []byte("t"), Type: regattapb.Command_PUT, Kv: &regattapb.KeyValue{Key: verif.Bytes(1), Value: verif.Bytes(1)}}
+		if verif.Bool() {
+			li := vhIndex(false)
+			cmd.LeaderIndex = &li
+		} else {
+			verif.Cover("entry-without-leader-index")
+		}
+		log = append(log, vhEntry(idx, cmd))
+	}
+	verif.Assume(ref.index < 1<<62)
+	verif.Assume(ref.leader != 0) // a follower table: a (non-reset) leader index is recorded
+	_, err := f.Update(log)
+	verif.Assert(err == nil, "update succeeds")
+	persisted := vhReadIndex(f, true)
+	for _, x := range reported {
+		verif.Assert(x <= persisted, "the listener of a follower table is only told leader indices the table has reached")
+	}
+	verif.Cover("end")
+}
